@@ -228,6 +228,15 @@ def executions(tier, seed):
         ]
         out.append({'lengths': [], 'mtu': None, 'salt': k, 'order': lambda w: [], 'composed': [comps[k % 4]],
                     'kind': 'composed'})
+    # a message that cannot be used (a segment contradicting the total length of its transfer, a transfer item with
+    # too few fields) in front of a good bundle in the same datagram: the bundle is handled all the same
+    for k in range(4):
+        good = bundle_like([12, 40, 300, 9][k], 850 + k)
+        first = ([('ext', {2: [7, 100, 0, b'a' * 10]})], 'first segment of a transfer')
+        bad = [{2: [7, 101, 10, b'a' * 10]}, {2: [7, 100]}, {2: [7, 99, 90, b'b' * 9]}, {2: [7, 101, 10, b'a' * 10]}][k]
+        parts = [('ext', bad), ('bundle', good)] + ([('pad', 3)] if k == 3 else [])
+        out.append({'lengths': [], 'mtu': None, 'salt': k, 'order': lambda w: [],
+                    'composed': [first, (parts, 'unusable segment + bundle')], 'kind': 'composed'})
     # a sender that also announces itself periodically (Sender Listen): its other messages go out through the
     # same paced transmit path while transfer datagrams are waiting for their turn
     for (k, (lengths, mtu, iv)) in enumerate([([2405], 300, 100), ([254], None, 15), ([900, 300], 120, 30),
